@@ -23,7 +23,7 @@ CLAIMED = True
 MANIFEST = {
  "level_text": "Theorems over the shard state machine Model/Shard.v extended with one compaction batch at a time (Model/Compaction.v: CWrite, CIndex, CLive, CReclaim; the batch is a label checked by batch_ok against the k-way policy). The merge neither drops nor invents rows: for every directory list, batch and type of the batch the output rows of the type are a permutation of its rows in the inputs, and no other type is written. One whole batch from a well-formed state (live ids have directories; unique index labels; a listed type has rows in the directory; every row of a live directory is listed there or, its type retired from that entry, held by a live segment that lists the type; unique event ids among scanned rows up to identical copies; inputs live, output id fresh, batch_ok) leaves EVERY selection unchanged up to order - also for types outside the batch and when an input is drained only partially - and re-establishes the invariant, hence any number of batches/rounds; the invariant holds at every state of every crash-free flush history from the initial state (C03 invariant extended to the index). COUNT: refuted with the witness seg0 {0,1}, seg1 {0}, k=2 (CountAfterPartialDrain); proved exactly: for a type of the batch COUNT grows by the number of its rows in the inputs that stay live, so a batch that drains all of its inputs (e.g. a single event type) preserves COUNT for every type, and such batches preserve exactness. A run that stops after the output write, followed by crash and restart, leaves the index and every selection as without the run; COUNT additionally counts the leftover directory (witness). The model is validated against the engine by trace validation of hooked runs with compaction rounds and abort() at the compaction step points.",
  "design_ref": "DESIGN.md \u00a76 C05",
- "level_note": "Trusted: Coq kernel; ExtrOcamlBasic extraction + ocaml/p_shard.ml; the engine harness, tools/engine.py, tools/shardlib.py (trace -> label mapping); hooks under cfg(sneldb_verif) incl. compact_now. Hypotheses: unique event ids (C18); NoDup of the batch's uid list (the planner groups by uid); the output id is fresh (no directory of that name; C11 shows that the allocator hands retired labels out again, which keeps this hypothesis true only because the retired directory was reclaimed). Not covered by the theorems: flush or store labels interleaved INSIDE a batch, REPLAY order after a merge (context order is unspecified between inputs), the stale label-keyed caches after a label is handed out again (finding SegmentLabelReusedStaleCache, detected by the engine oracle only), more than one shard."
+ "level_note": "Trusted: Coq kernel; ExtrOcamlBasic extraction + ocaml/p_shard.ml; the engine harness, tools/engine.py, tools/shardlib.py (trace -> label mapping); hooks under cfg(sneldb_verif) incl. compact_now. Hypotheses: unique event ids (C18); NoDup of the batch's uid list (the planner groups by uid); the output id is fresh (no directory of that name; since a19e65f the allocator does not hand out a label again within a process lifetime, see the C11 lifetime theorems; across a restart a retired label can come back, its directory having been reclaimed). Not covered by the theorems: flush or store labels interleaved INSIDE a batch, REPLAY order after a merge (context order is unspecified between inputs), label-keyed reader caches (the former finding SegmentLabelReusedStaleCache, repaired by a19e65f, was detected by the engine oracle only), more than one shard."
 }
 
 CP_POINTS = ["cp_output_written", "cp_index_saved", "cp_live_updated", "cp_reclaim_moved", "cp_reclaim_deleted",
@@ -163,13 +163,8 @@ def classify(c, impl, model=None):
     why = oracle(c, impl) or ""
     if " sel" in why and model and not shardprop.diffs(c, impl, model) and re.search(r"wlost=[0-9]", model):
         return "OpenWalFilePruned"
-    if (" rp" in why or " sel" in why or " cnt" in why) and model and not shardprop.diffs(c, impl, model) and re.search(r"stalerows=[0-9]", model):
-        # (the comparison accepts a read that misses rows only if they are rows of a re-created label, see shardlib)
-        lost = re.search(r"obs#(\d+) ", why)
-        n = int(lost.group(1)) if lost else -1
-        obs = model.split(" | ")
-        if 0 <= n < len(obs) and re.search(r"stalerows=[0-9]", obs[n]):
-            return "SegmentLabelReusedStaleCache"
+    # SegmentLabelReusedStaleCache (reads through stale label-keyed caches after a label was re-created in the same
+    # process lifetime) was repaired by a19e65f and is no longer an accepted class
     if " cnt" in why and model and not shardprop.diffs(c, impl, model):
         # which known aggregate class: rows of a retired type still readable from a partially drained input
         # (or from a leftover directory after a crash); the model must predict this very count
